@@ -702,6 +702,7 @@ func (ex *Exec) stepMakeInterface(x *ssa.MakeInterface) {
 			// interface values holding pointers / funcs: tagged injection
 			r := ex.D.Fn("iface."+sanitize(typeKey(x.X.Type())), SInt, v.T)
 			ex.assume(Gt(r, IntLit(0)))
+			ex.assume(Eq(ex.D.Fn("unwrap."+sanitize(typeKey(x.X.Type())), SInt, r), v.T))
 			ex.ifaceSrc[r.String()] = ifaceOrigin{v, x.X.Type()}
 			ex.setVal(x, Val{T: r})
 			return
@@ -767,12 +768,88 @@ func (ex *Exec) stepPhi(x *ssa.Phi) {
 }
 
 func (ex *Exec) stepReturn(x *ssa.Return) {
+	// A return block that only joins paths (phis + return): the postcondition
+	// is checked on each incoming path in that path's own state, so that what
+	// the last callee on the path ensured is literally available instead of
+	// hidden behind merged heap names.
+	b := x.Block()
+	if ex.joinOnlyReturn(b) {
+		saveCur, savePc := ex.cur, ex.pc
+		for pi, p := range b.Preds {
+			st, done := ex.outState[p]
+			if !done {
+				continue
+			}
+			ex.returns++
+			ex.cur = st.clone()
+			ex.pc = ex.edgeCond(p, b)
+			// replay the block's (local-only) instructions on this path
+			for _, in := range b.Instrs {
+				switch y := in.(type) {
+				case *ssa.Phi:
+					ex.vals[y] = ex.val(y.Edges[pi])
+				case *ssa.Return, *ssa.RunDefers, *ssa.DebugRef:
+				default:
+					ex.step(in)
+				}
+			}
+			var res []Val
+			for _, r := range x.Results {
+				res = append(res, ex.val(r))
+			}
+			ex.checkPost(res, x.Pos())
+		}
+		ex.cur, ex.pc = saveCur, savePc
+		return
+	}
 	ex.returns++
 	var res []Val
 	for _, r := range x.Results {
 		res = append(res, ex.val(r))
 	}
 	ex.checkPost(res, x.Pos())
+}
+
+// joinOnlyReturn: b has several executed predecessors, is not a loop header,
+// and consists of phis followed by the return only.
+func (ex *Exec) joinOnlyReturn(b *ssa.BasicBlock) bool {
+	if len(b.Preds) < 2 || ex.fn.Recover != nil {
+		return false
+	}
+	for _, in := range b.Instrs {
+		switch in.(type) {
+		case *ssa.Phi, *ssa.Return, *ssa.DebugRef:
+		case *ssa.RunDefers:
+			if ex.hasDefers() {
+				return false
+			}
+		case *ssa.UnOp:
+			// loads only
+			if y := in.(*ssa.UnOp); y.Op != token.MUL {
+				return false
+			}
+		case *ssa.Store:
+			// stores to local cells only
+			if a, ok := in.(*ssa.Store).Addr.(*ssa.Alloc); !ok || a.Heap {
+				return false
+			}
+		default:
+			return false
+		}
+	}
+	for _, p := range b.Preds {
+		if _, done := ex.outState[p]; !done {
+			return false // back edge or unreachable predecessor
+		}
+		if last := p.Instrs[len(p.Instrs)-1]; last != nil {
+			if _, isIf := last.(*ssa.If); !isIf {
+				if _, isJump := last.(*ssa.Jump); !isJump {
+					return false
+				}
+			}
+		}
+	}
+	return true
 }
 
 // ---------------------------------------------------------------------------
@@ -881,4 +958,16 @@ func (ex *Exec) chanInvSend(ch ssa.Value, v Val, pos token.Pos) {
 			ex.oblige("chaninv:"+f, tags, Neq(v.T, IntLit(0)), pos, "value sent on "+f+" is non-nil")
 		}
 	}
+}
+
+// hasDefers: the function contains a defer statement.
+func (ex *Exec) hasDefers() bool {
+	for _, b := range ex.fn.Blocks {
+		for _, in := range b.Instrs {
+			if _, ok := in.(*ssa.Defer); ok {
+				return true
+			}
+		}
+	}
+	return false
 }
